@@ -406,6 +406,11 @@ def property_oracle(case, flat, out, status=None) -> list[dict]:
         elif lost:
             problem("refused", f"scheduled transaction {key} not applied although it was scheduled: {lost}",
                     key=list(key), members=[list(f) for f, _ in lost])
+    # a transaction that touches an ignored line is dropped (T10.3 is an equivalence): no spliced rewrite overlaps a
+    # line whose COMMENT token carries the marker
+    for f, stt in zip(flat, status):
+        if stt == "applied" and any(overlaps((f[2], f[3]), l) for l in ilines):
+            problem("ignored-touched", f"rewrite {f} was applied although it touches an ignored line")
     # (d)+(e) text: splice of the applied rewrites, or untouched source when that does not parse
     cand = py_splice(case["source"], [f for f, stt in zip(flat, status) if stt in ("applied", "noop")])
     want = cand if py_valid(cand) else case["source"]
@@ -423,7 +428,7 @@ def property_oracle(case, flat, out, status=None) -> list[dict]:
 # structural predicate of a listed finding whose `site` is the site the problem is attributed to
 
 PROBLEM_SITE = {"torn": "processing._apply_rewrites", "refused": "processing._apply_rewrites",
-                "dropped": "core.has_ignore_comment"}
+                "dropped": "core.has_ignore_comment", "ignored-touched": "processing._schedule_rewrites"}
 PARSE_RAISES = ("RecursionError", "UnicodeEncodeError", "UnicodeDecodeError", "MemoryError", "ValueError")
 
 
